@@ -31,6 +31,12 @@ def main():
         if args.replay:
             return mod.replay(args.replay)
         return mod.run(t, budget=args.budget or 1.0)
+    except common.LibraryBuildError as e:
+        res = common.Result(prop, t)
+        res.rule = "harness build against the working tree (the check could not run: the library or generated code does not compile for it)"
+        res.count()
+        res.violation(e.signature, e.case, str(e))
+        return res.finish()
     except common.BuildError as e:
         # a tree that does not build is not a property verdict
         print("BUILD-ERROR: %s" % e)
